@@ -51,8 +51,9 @@ def run_task(task):
             for i in range(n):
                 a[i] = ctx.int('a%d' % i, -2 ** 62, 2 ** 62)
                 b[i] = SymInt.mk(ex(a[i]) + z3.If(ex(d) == i, ex(delta), 0))
+        array_equal, dedup = reader._array_equal, reader._deduplicate_array     # a missing helper is a harness error, not a finding
         try:
-            got = reader._array_equal(a, b) if c is None else reader._array_equal(a, b, c)
+            got = array_equal(a, b) if c is None else array_equal(a, b, c)
         except Exception as e:
             ctx.fail('dedup-exception', exc=type(e).__name__, msg=str(e)[:80])
         got = bool(got)
@@ -96,8 +97,13 @@ def replay(pid, art):
         b = np.array([inp.get('b%d' % i, 0) for i in range(n)], dtype=np.int64)
     else:
         b = np.array([inp.get('a%d' % i, 0) + (inp.get('delta', 1) if inp.get('d', n) == i else 0) for i in range(n)], dtype=np.int64)
+    array_equal = reader._array_equal
     try:
-        got = bool(reader._array_equal(a, b) if c is None else reader._array_equal(a, b, c))
+        got = bool(array_equal(a, b) if c is None else array_equal(a, b, c))
+    except TypeError as e:
+        if c is not None and 'argument' in str(e):
+            raise                       # the helper no longer takes a block size: harness error
+        return dict(sig=signature(pid, dict(task=task, what='dedup-exception')), exception=repr(e)[:200])
     except Exception as e:
         return dict(sig=signature(pid, dict(task=task, what='dedup-exception')), exception=repr(e)[:200])
     want = bool(np.array_equal(a, b))
